@@ -36,7 +36,7 @@ Print Assumptions no_start_after_cancel.
 (* a call whose context test preceded the cancellation completes: the k-th
    instrumented call cancels from inside and still returns *)
 Theorem cancelling_call_completes : forall f args w,
-  w_cancelled w = false -> w_cancel_at w = Some (w_ncalls w) -> f = bs "T" ->
+  w_cancelled w = false -> w_cancel_at w = Some (w_ncalls w) -> w_fail_at w = None -> f = bs "T" ->
   let '(r, w') := call_fn f args w in
   r = Ok (last args VNone) /\ w_cancelled w' = true /\ w_ncalls w' = (w_ncalls w + 1)%N.
 Proof. exact call_cancels_from_inside. Qed.
